@@ -126,8 +126,11 @@ func typedSample(t Type, i int) Expr {
 func g3Arity() []BashCase {
 	cases := []BashCase{}
 	types := []Type{TInt, TString, TBool}
-	for np := 0; np <= 4; np++ {
+	for _, np := range []int{0, 1, 2, 3, 4, 9, 10, 12} {
 		for nr := 0; nr <= 3; nr++ {
+			if np > 4 && nr > 1 {
+				continue
+			}
 			for rot := 0; rot < 3; rot++ {
 				params := []Param{}
 				for i := 0; i < np; i++ {
